@@ -40,6 +40,7 @@ type OTarget struct {
 	Meta     string    `json:"meta,omitempty"`  // meta["receive_timeout"]; "" = key absent
 	Creds    bool      `json:"creds,omitempty"` // target carries a username + password id: the manager asks the CredentialsClient on every attempt
 	Attempts []Attempt `json:"attempts,omitempty"`
+	Errs     string    `json:"errs,omitempty"` // error values (errKinds) of the attempts made once the script is exhausted
 	// Hold names the point at which this target's goroutine is parked until a
 	// release step (or the final clean-up) lets it go; the first HoldN
 	// occurrences park.
@@ -114,8 +115,11 @@ func (sc *OScenario) validate() error {
 		if tg.HoldN < 0 || tg.HoldN > 16 {
 			return fmt.Errorf("target %d: hold_n %d", i, tg.HoldN)
 		}
-		if len(tg.Attempts) > 64 {
+		if len(tg.Attempts) > 64 || scriptLen(tg.Attempts) > maxScriptLen {
 			return fmt.Errorf("target %d: too many attempts", i)
+		}
+		if !validErrKind(tg.Errs) {
+			return fmt.Errorf("target %d: error kind %q", i, tg.Errs)
 		}
 		for j, a := range tg.Attempts {
 			switch a.Dial {
@@ -135,6 +139,9 @@ func (sc *OScenario) validate() error {
 			}
 			if a.DialDelayMs < 0 || a.EndDelayMs < 0 || len(a.Msgs) > 64 {
 				return fmt.Errorf("target %d attempt %d: bad delay / too many messages", i, j)
+			}
+			if !validErrKind(a.Errs) || a.Repeat < 0 || a.Repeat > maxScriptLen {
+				return fmt.Errorf("target %d attempt %d: error kind %q / repeat %d", i, j, a.Errs, a.Repeat)
 			}
 			for k, m := range a.Msgs {
 				switch m.Kind {
@@ -201,6 +208,7 @@ var (
 
 func genOAttempt(t *rapid.T) Attempt {
 	a := Attempt{Dial: rapid.SampledFrom(oDialKinds).Draw(t, "dial")}
+	a.Errs = rapid.SampledFrom(errKindsGen).Draw(t, "errs")
 	if a.Dial != "hang" {
 		a.DialDelayMs = rapid.SampledFrom(oDialDelays).Draw(t, "dial-delay")
 	}
@@ -235,6 +243,7 @@ func genOverlap(t *rapid.T) *OScenario {
 		tg.Meta = rapid.SampledFrom(oMetas).Draw(t, "meta")
 		tg.Creds = rapid.IntRange(0, 3).Draw(t, "creds") == 3
 		tg.Attempts = rapid.SliceOfN(rapid.Custom(genOAttempt), 0, 4).Draw(t, "attempts")
+		tg.Errs = rapid.SampledFrom(errKindsGen).Draw(t, "errs")
 		tg.Hold = rapid.SampledFrom(oHolds).Draw(t, "hold")
 		if tg.Hold != "" {
 			tg.HoldN = rapid.IntRange(1, 3).Draw(t, "hold-n")
